@@ -568,6 +568,9 @@ def _compute_form_ir(
         integral_type = itg_data.integral_type
         if any(sid != "otherwise" and sid < 0 for sid in itg_data.subdomain_id):
             raise ValueError("Integral subdomain IDs must be non-negative.")
+        if any(sid != "otherwise" and sid > 2**31 - 1 for sid in itg_data.subdomain_id):
+            # ufcx_form.form_integral_ids is an array of int
+            raise ValueError("Integral subdomain IDs must fit a 32-bit signed integer.")
         subdomain_ids = [sid if sid != "otherwise" else -1 for sid in itg_data.subdomain_id]
         ir["subdomain_ids"][integral_type] += subdomain_ids
         for _ in range(len(subdomain_ids)):
